@@ -47,6 +47,26 @@ theorem mem_dedupInto : ∀ (ids seen : List String) (i : String), i ∈ ids →
       · exact mem_dedupInto_seen is (by simp)
       · exact mem_dedupInto is _ i hi
 
+theorem mem_of_mem_dedupInto : ∀ (ids seen : List String) (i : String), i ∈ dedupInto seen ids → i ∈ seen ∨ i ∈ ids
+  | [], seen, i, h => by simp [dedupInto] at h; exact Or.inl h
+  | a :: is, seen, i, h => by
+    unfold dedupInto at h
+    split at h
+    · rcases mem_of_mem_dedupInto is seen i h with h | h
+      · exact Or.inl h
+      · exact Or.inr (by simp [h])
+    · rcases mem_of_mem_dedupInto is _ i h with h | h
+      · simp only [List.mem_append, List.mem_singleton] at h
+        rcases h with h | h
+        · exact Or.inl h
+        · exact Or.inr (by simp [h])
+      · exact Or.inr (by simp [h])
+
+theorem mem_of_mem_dedupIds {ids : List String} {i : String} (h : i ∈ dedupIds ids) : i ∈ ids := by
+  rcases mem_of_mem_dedupInto ids [] i h with h | h
+  · cases h
+  · exact h
+
 theorem dedupInto_nodup : ∀ (ids seen : List String), seen.Nodup → (dedupInto seen ids).Nodup
   | [], seen, h => by simpa [dedupInto] using h
   | i :: is, seen, h => by
